@@ -65,6 +65,7 @@ def build(tier):
                 for l in range(3):
                     A4[k + 1, l + 1] = A[k, l]
             sh = rel['sheardown4']
+            thd = rel['thetadown4']          # cache hit right after the shear was computed (no clean-up in between)
             om = rel['omegadown4']
             for m in range(4):
                 for nu in range(m, 4):
@@ -74,6 +75,19 @@ def build(tier):
                     obs.append(Ob(f'omegadown4[{m},{nu}]', T0(om[m, nu, 0, 0, 0]), tm.ZERO, S.pre,
                                   get=lambda r, m=m, nu=nu: r['omegadown4'][m, nu],
                                   group='omegadown4 == 0'))
+            # expansion tensor read *after* the shear (and everything above) was requested on the same instance:
+            # theta_mu_nu == -K_mu_nu embedded; a body that builds the shear inside the cached expansion tensor shows here
+            K4 = oracle.arr((4, 4))
+            K4[0, 0] = -sum(b0[i] * b0[j] * K[i, j] for i in range(3) for j in range(3))
+            for k in range(3):
+                K4[0, k + 1] = K4[k + 1, 0] = -sum(b0[i] * K[i, k] for i in range(3))
+                for l in range(3):
+                    K4[k + 1, l + 1] = -K[k, l]
+            for m in range(4):
+                for nu in range(m, 4):
+                    obs.append(Ob(f'thetadown4[{m},{nu}] read after the shear', T0(thd[m, nu, 0, 0, 0]), K4[m, nu], S.pre,
+                                  get=lambda r, m=m, nu=nu: (r['sheardown4'], r['thetadown4'][m, nu])[1],
+                                  group='thetadown4 == -K_mu_nu (embedded), after sheardown4 was requested'))
             obs.append(Ob('omega2', T0(rel['omega2'][0, 0, 0]), tm.ZERO, S.pre,
                           get=lambda r: r['omega2'], group='omega2 == 0'))
             acc = rel['accelerationdown4']
